@@ -303,6 +303,27 @@ def run(facts, res):
             v = arg_term(drp, t, 2, 20)
             # key and value come from the same iterated entry
             r_ok = r_ok and contains_call(k, "next") and contains_call(v, "next")
+        if not r_ins:
+            # closure form: `entries.iter().filter(..).for_each(|(digest, v)| { stage.insert(digest.clone(), v.clone()); })`
+            from ..conds import capture_term
+            for cb in facts.closures_of(drp.path):
+                for bi, t in cb.calls():
+                    if t.callee is None or t.callee.name != "insert" or len(t.args) < 3:
+                        continue
+                    recv = arg_term(cb, t, 0, 12)
+                    into_stage = False
+                    for x in walk(recv):
+                        if x[0] == "upvar":
+                            ct = capture_term(cb, x[1], facts)
+                            if ct is not None and "stage" in field_path(ct)[0]:
+                                into_stage = True
+                    if not into_stage:
+                        continue
+                    r_ins.append((bi, t))
+                    k = arg_term(cb, t, 1, 20)
+                    v = arg_term(cb, t, 2, 20)
+                    r_ok = any(x[0] == "param" and x[1] == 2 for x in walk(k)) and any(x[0] == "param" and x[1] == 2 for x in walk(v)) and \
+                        any(cs.callee is not None and cs.callee.name == "for_each" for cs in cg_of(facts).callers_of(cb.path) if cb in cs.closures)
         res.instance("G4", "DataStorage::stage exports digest->object (%s); replay_stage re-inserts each entry under its digest (%s)" % (w_ok, r_ok), dst.loc())
         if not (w_ok and r_ok):
             res.violation("G4", "data-stage-roundtrip", "DataStorage::stage / replay_stage no longer copy every (digest, object) entry", drp.loc())
